@@ -38,7 +38,7 @@ META = {
         "allocation succeeds (framework-wide); element counts <= 2^20 (HEAP_MAX_ELEMS), intern table <= 1024 entries in C14.heap.*; reference counts below 2^31 in the step harnesses (no wrap of the 32-bit count)",
         "C14.heap.release.K / C14.heap.helper.K: the recursion is cut at the release_* helper (CBMC 6.11 cannot check and replace one function; a replaced call with two frees targets hangs symbolic execution; an ASSUMED __CPROVER_was_freed is rejected): vm_release is proved with the helper replaced by its contract (the frees clause lets the object die, the fact that the helper ran is a ghost counter), the helper is proved with the recursive calls replaced by the child view (deallocation of a child whose count reaches 0 is not modelled: loop contracts have no frees clause)",
         "C14.step.*: stack depth pinned (7 of capacity 8; .d1/.d2 = operand underflow, thorough tier): stack growth inside the step (realloc) is not covered; aliasing: slot-slot and slot-LOC in every obligation, element-slot in the .elem obligations (shapes pinned); container elements are leaves (strings / scalars)",
-        "opcodes not covered by C14.step.* : those open in C13 (ARR_SLICE, ARR_PUSH, HM_*, ADD/SUB/MUL/DIV, CALL*, RET, LOAD/STORE_GLOBAL, LOAD/STORE_UPVALUE), the allocating opcodes (PUSH_STR, STR_CONCAT, STR_SUBSTR, STR_FROM_*, CAST_STRING, ARR_NEW, ARR_LITERAL, STRUCT_NEW/LITERAL, UNION_CONSTRUCT, TUPLE_NEW, CLOSURE_NEW), STR_CHAR_AT (strlen: timeout), CALL_EXTERN / CALL_MODULE; vm_destroy (C14.destroy) is not built",
+        "opcodes not covered by C14.step.* : those open in C13 (ARR_SLICE, ARR_PUSH, HM_*, ADD/SUB/MUL/DIV, CALL*, RET, LOAD/STORE_GLOBAL, LOAD/STORE_UPVALUE), the allocating opcodes (PUSH_STR, STR_CONCAT, STR_SUBSTR, STR_FROM_*, CAST_STRING, ARR_NEW, ARR_LITERAL, STRUCT_NEW/LITERAL, UNION_CONSTRUCT, TUPLE_NEW, CLOSURE_NEW), STR_CHAR_AT (strlen: timeout at 420 s), TUPLE_GET (the tuple is one object of symbolic size: timeout at 420 s / out of memory at 10 GB; its release is covered by C14.heap.release.tuple / helper.tuple), CALL_EXTERN / CALL_MODULE; vm_destroy (C14.destroy) is not built (attempted with the child view of vm_release and two loop contracts: the 98 KB VmState object makes formula conversion exceed 400 s)",
         "only excess' >= excess (leak, no dangling value): " + "; ".join("%s: %s" % kv for kv in GE_ONLY.items()) +
         "; on ill-typed operands that do not fail the step: " + "; ".join("%s: %s" % kv for kv in UNTYPED_LEAK.items()),
     ],
@@ -48,6 +48,7 @@ HEAP = "harness/heap_h.c"
 RC = "harness/vm_rc_h.c"
 
 SC, ST, AR, SU, UN, TU, CL = 1, 2, 4, 8, 16, 32, 64
+MINT = 128   # shape mask of vm_step_h.c: TAG_INT only
 BASE = SC | ST | AR
 CRC, CDEG, CFREE, CALIAS = 1, 2, 4, 8
 ALL3 = CRC | CDEG | CFREE
@@ -61,7 +62,7 @@ STEP_OPS = {
     "ARR_GET": dict(cov=ALL3), "ARR_SET": dict(cov=ALL3), "ARR_POP": dict(cov=0), "ARR_LEN": dict(cov=ALL3),
     "ARR_REMOVE": dict(cov=CDEG, defs={"VERIF_ARR_CAP": 8}, bound="array capacity <= 8"),
     "STRUCT_GET": dict(extra=SU, cov=ALL3), "STRUCT_SET": dict(extra=SU, cov=ALL3),
-    "TUPLE_GET": dict(extra=TU, cov=ALL3), "UNION_FIELD": dict(extra=UN, cov=ALL3), "UNION_TAG": dict(extra=UN, cov=ALL3),
+    "UNION_FIELD": dict(extra=UN, cov=ALL3), "UNION_TAG": dict(extra=UN, cov=ALL3),
     "EQ": dict(cov=ALL3), "NE": dict(cov=ALL3), "NOT": dict(cov=ALL3),
     "JMP_TRUE": dict(cov=ALL3, defs={"VERIF_TARGET": 13}, bound="jump target pinned to the next instruction"),
     "PRINT": dict(cov=0), "ASSERT": dict(cov=0),
@@ -79,26 +80,29 @@ STEP_OPS = {
 }
 
 
-MINT = 128   # shape mask of vm_step_h.c: TAG_INT only
 # opcodes that read or write container elements: separate obligations in which the element at the index of interest IS the
 # string another slot holds (shapes pinned): op -> (container slot, string slot, (M0, M1, M2))
 ELEM_ALIAS = {
     "ARR_SET": (2, 0, (ST, MINT, AR)), "STRUCT_SET": (1, 0, (ST, SU, SC)),
     "ARR_GET": (1, 2, (MINT, AR, ST)), "ARR_REMOVE": (1, 2, (MINT, AR, ST)), "ARR_POP": (0, 1, (AR, ST, SC)),
-    "STRUCT_GET": (0, 1, (SU, ST, SC)), "TUPLE_GET": (0, 1, (TU, ST, SC)), "UNION_FIELD": (0, 1, (UN, ST, SC)),
+    "STRUCT_GET": (0, 1, (SU, ST, SC)), "UNION_FIELD": (0, 1, (UN, ST, SC)),
 }
 
 
+# step obligations that do not close (never registered): TUPLE_GET (timeout 420 s; .elem: out of memory), STR_CHAR_AT (timeout)
 # measured > ~45 s: thorough tier only
-STEP_THOROUGH = {"STORE_LOCAL", "NEG", "ARR_SET", "LOAD_LOCAL", "TUPLE_GET"}
-ELEM_THOROUGH = {"TUPLE_GET", "ARR_GET", "STRUCT_GET", "UNION_FIELD", "ARR_REMOVE"}
+STEP_THOROUGH = {"STORE_LOCAL", "NEG", "ARR_SET", "LOAD_LOCAL", "ARR_REMOVE"}
+# ... with a quick variant in which the operand shapes are the ones the compiler emits: op -> (M0, M1, M2)
+SHAPED_QUICK = {"ARR_REMOVE": (MINT, AR, SC), "ARR_SET": (ST | SC, MINT, AR)}
+ELEM_THOROUGH = {"ARR_GET", "STRUCT_GET", "UNION_FIELD", "ARR_REMOVE"}
 
 
 def step_obligations():
     obs = []
     for op, cfg in STEP_OPS.items():
         o = vmstep.step("C14", "C14.step." + op, "h_c14", op, harness=RC, must_have=[r"C14\.step\.safety", r"C14\.step\.dangling", r"COVER"],
-                        timeout=420, flags=["--no-pointer-primitive-check"], witness={"replayer": "rc"})
+                        timeout=420, flags=["--no-pointer-primitive-check"], witness={"replayer": "rc"},
+                        backends=["minisat", "cadical"])      # portfolio: minisat's time on one query varied 8 s .. 310 s between two builds of vm.c
         m = cfg.get("mask", BASE) | cfg.get("extra", 0)
         o["defines"].update({"VERIF_M0": m, "VERIF_M1": m, "VERIF_M2": m, "VERIF_STACK_SIZE": 7,
                              "VERIF_RC_COVERS": cfg.get("cov", 0) | CALIAS})
@@ -123,9 +127,14 @@ def step_obligations():
             a["defines"].update({"VERIF_M0": m0, "VERIF_M1": m1, "VERIF_M2": m2, "VERIF_RC_EC": ec, "VERIF_RC_ES": es})
             a["defines"].pop("VERIF_RC_UNTYPED_LEAK", None)          # index operands are ints in these shapes
             a["tier"] = "thorough" if op in ELEM_THOROUGH else "quick"
-            if op == "TUPLE_GET":
-                a["mem_gb"] = 24
             obs.append(a)
+        if op in SHAPED_QUICK:
+            q = copy.deepcopy(o)
+            q["id"] += ".shaped"
+            q["defines"].update(dict(zip(("VERIF_M0", "VERIF_M1", "VERIF_M2"), SHAPED_QUICK[op])))
+            q["defines"].pop("VERIF_RC_UNTYPED_LEAK", None)
+            q["tier"] = "quick"
+            obs.append(q)
         # operand underflow: the same step with only one / two slots on the stack (thorough tier)
         for depth in (1, 2):
             u = copy.deepcopy(o)
@@ -162,7 +171,7 @@ def release_obligations():
             gi += ["--remove-function-body", f]
         obs.append(dict(id="C14.heap.release." + nm, prop="C14", harness=HEAP, entry="h_release", annotate=HANN,
                         defines={"VERIF_HKIND": k}, gi_flags=gi, enforce="vm_release", replace=[helper[nm]] if nm in helper else [],
-                        loops=True, unwind=6, strength="X", functions=["vm_release"],
+                        loops=True, unwind=6, strength="X", functions=["vm_release"], weight=100 if nm in ("array", "struct", "union") else 20,
                         timeout=240, flags=["--no-pointer-primitive-check"], must_have=[r"vm_release\.postcondition", r"COVER"], min_checks=30))
         if nm in helper:
             obs.append(dict(id="C14.heap.helper." + nm, prop="C14", harness=HEAP, entry="h_helper", annotate=HANN,
@@ -198,27 +207,11 @@ def container_obligations():
     return obs
 
 
-def destroy_obligations():
-    obs = []
-    gi = []
-    for f in ["vm_core_execute", "vm_call_function", "vm_execute", "vm_init", "vm_link_module", "vm_error_string", "vm_get_result"]:
-        gi += ["--remove-function-body", f]
-    for v, nm in ((1, "globals"), (2, "stack")):
-        obs.append(dict(id="C14.destroy." + nm, prop="C14", harness="harness/vm_destroy_h.c", entry="h_destroy",
-                        annotate=[("src/nanovm/vm.c", "contracts/loops/vm.c.destroy.%s.loops" % nm)], defines={"DESTROY_VIEW": v},
-                        gi_flags=gi, enforce="vm_destroy", replace=["vm_release", "vm_heap_destroy"], loops=True, unwind="auto",
-                        strength="U", functions=["vm_destroy"], timeout=600, flags=["--no-pointer-primitive-check"], tier="thorough",
-                        must_have=[r"vm_destroy\.postcondition", r"vm_release\.precondition", r"loop_invariant_step", r"decreases", r"COVER"],
-                        min_checks=30))
-    return obs
-
-
 def obligations(repo):
     obs = []
     obs.append(dict(id="C14.heap.retain", prop="C14", harness=HEAP, entry="h_retain", enforce="vm_retain", unwind=5,
                     strength="U", functions=["vm_retain"], must_have=[r"vm_retain\.postcondition", r"COVER"], min_checks=10))
     obs += release_obligations()
     obs += container_obligations()
-    obs += destroy_obligations()
     obs += step_obligations()
     return obs
